@@ -24,6 +24,7 @@ func RapidCheck(t *testing.T, n int, salt uint64, prop func(t *rapid.T)) {
 	_ = flag.Set("rapid.checks", strconv.Itoa(n))
 	_ = flag.Set("rapid.seed", strconv.FormatUint(SeedFor(salt), 10))
 	_ = flag.Set("rapid.nofailfile", "true")
+	_ = flag.Set("rapid.shrinktime", "8s")
 	rapid.Check(t, prop)
 }
 
